@@ -29,23 +29,37 @@ def bind(fn, name, init_pat):
     if fn is None:
         return name
     fn.defs(0)
-    if name in fn._names.values():
-        return name
     if name in getattr(fn, "_renames", {}):
         return fn._renames[name]
     m = M(fn)
-    for pt, e in sorted(fn.points()):
-        for n in own_walk(e):
-            tgt = None
-            if n.get("k") == "decl" and n.get("init") is not None and m.match(init_pat, n["init"]):
-                tgt = n["name"]
-            elif n.get("k") == "assign" and n["op"] == "=" and strip(n["l"]).get("k") == "ref" and m.match(init_pat, n["r"]):
-                tgt = strip(n["l"])["name"]
-            if tgt:
-                if not hasattr(fn, "_renames"):
-                    fn._renames = {}
-                fn._renames[name] = tgt
-                return tgt
+    m0 = M(fn, inline=False)
+    if name in fn._names.values():
+        # the name exists — but is it the variable the tables mean?  (a macro may declare a local of
+        # the same spelling.)  Keep it if one of its own definitions has the expected shape.
+        for i in fn.ids_named(name):
+            for d in fn.defs(i):
+                if isinstance(d, dict) and d.get("k") not in ("uninit", "param") and m0.match(init_pat, d):
+                    return name
+        if not any(isinstance(d, dict) and d.get("k") not in ("uninit", "param") for i in fn.ids_named(name) for d in fn.defs(i)):
+            return name
+    found = None
+    for want_decl in (True, False):          # declarations first, then plain assignments (matched without local inlining)
+        for pt, e in sorted(fn.points(), reverse=True):
+            for n in own_walk(e):
+                tgt = None
+                if want_decl and n.get("k") == "decl" and n.get("init") is not None and m.match(init_pat, n["init"]):
+                    tgt = n["name"]
+                elif not want_decl and n.get("k") == "assign" and n["op"] == "=" and strip(n["l"]).get("k") == "ref" and m0.match(init_pat, n["r"]):
+                    tgt = strip(n["l"])["name"]
+                if tgt and not found:
+                    found = tgt
+        if found:
+            break
+    if found and found != name:
+        if not hasattr(fn, "_renames"):
+            fn._renames = {}
+        fn._renames[name] = found
+        return found
     return name
 
 
